@@ -834,12 +834,14 @@ class Engine:
                 st.assume(z3.And(w.t >= 0, w.t < st.heap.next_ref))
                 w.origin = attr  # provenance, used by the ownership ghost of `owning` dict fields
                 self.typed_container(st, w)
+                self.models.assume_kind(st, w)
             return [(st, w)]
         if isinstance(v, SRec):
             if attr in v.fields:
                 w = v.fields[attr]
                 if isinstance(w, SRef):
                     self.typed_container(st, w)
+                    self.models.assume_kind(st, w)
                 return [(st, w)]
             if attr in v.ci.methods:
                 return [(st, self.bound_method(v.ci, attr, v))]
